@@ -180,8 +180,8 @@ func c16Batch(rec *sb.Rec, root string, progs []c16Prog) []*failure {
 	if len(ok) == 0 {
 		return fs
 	}
-	os.WriteFile(filepath.Join(pkg, "go.mod"), []byte("module batch\n\ngo 1.25.0\n\nrequire github.com/php-any/origami v0.0.0\n\nreplace github.com/php-any/origami => /repo\n"), 0o644)
-	sum, _ := os.ReadFile("/repo/go.sum")
+	os.WriteFile(filepath.Join(pkg, "go.mod"), []byte("module batch\n\ngo 1.25.0\n\nrequire github.com/php-any/origami v0.0.0\n\nreplace github.com/php-any/origami => "+sb.Repo()+"\n"), 0o644)
+	sum, _ := os.ReadFile(sb.Repo() + "/go.sum")
 	os.WriteFile(filepath.Join(pkg, "go.sum"), sum, 0o644)
 	bin := filepath.Join(root, "batch.bin")
 	for attempt := 0; attempt < 6; attempt++ {
@@ -387,7 +387,7 @@ func TestC16(t *testing.T) {
 				if err != nil {
 					continue
 				}
-				progs = append(progs, c16Prog{Name: fmt.Sprintf("c%04d", i), Src: string(src), Kind: "corpus:" + strings.TrimPrefix(f, "/repo/")})
+				progs = append(progs, c16Prog{Name: fmt.Sprintf("c%04d", i), Src: string(src), Kind: "corpus:" + strings.TrimPrefix(f, sb.Repo()+"/")})
 			}
 		}
 		broot := filepath.Join(root, fmt.Sprintf("b%d", b))
